@@ -47,6 +47,23 @@ func (s *MiniListener) EnterItem(ctx *parser.ItemContext) {
 
 func (s *MiniListener) ExitItem(ctx *parser.ItemContext) {
 	inItem = false
+	// bad: the comma-ok result boxed into an interface is never == nil, the nil *OptContext is used
+	if o := optOf(ctx); o != nil {
+		_ = o.(*parser.OptContext).ID()
+	}
+	// ok: the pointer itself is tested
+	if o, ok := ctx.GetChild(2).(*parser.OptContext); ok {
+		_ = o.ID()
+	}
+	// bad: child 0 of an item is a terminal (KW or SEMI), terminals have no children: TypeOf(nil).String()
+	if reflect.TypeOf(ctx.GetChild(0).GetChild(0)).String() == "*parser.NameContext" {
+		_ = 1
+	}
+}
+
+func optOf(ctx *parser.ItemContext) parser.IOptContext {
+	o, _ := ctx.GetChild(2).(*parser.OptContext)
+	return o
 }
 
 func (s *MiniListener) EnterOpt(ctx *parser.OptContext) {
